@@ -594,10 +594,10 @@ struct SlistH
 enum
 {
     Q_PUSH_FORE = 1, Q_PUSH_BACK, Q_PULL_FORE, Q_PULL_BACK, Q_INSERT, Q_REMOVE, Q_PUSH_SORT, Q_SORT_FORE, Q_SORT_BACK,
-    Q_SWAP_ELEM, Q_SWAP_QUE, Q_DROP, Q_SETZ, Q_ACCESS, Q_DIE
+    Q_SWAP_ELEM, Q_SWAP_QUE, Q_DROP, Q_SETZ, Q_ACCESS, Q_DIE, Q_REQUEUE
 };
 static const char *q_names[] = {"?", "push_fore", "push_back", "pull_fore", "pull_back", "insert", "remove", "push_sort", "sort_fore", "sort_back",
-                                "swap_", "swap", "drop", "setz", "access", "die"};
+                                "swap_", "swap", "drop", "setz", "access", "die", "requeue"};
 
 static inline unsigned char ebyte(unsigned char b0, size_t j) { return j == 0 ? b0 : (unsigned char)(b0 * 31u + j * 17u + 5u); }
 static void fill_elem(void *p, unsigned char b0, size_t siz) { for (size_t j = 0; j < siz; ++j) { ((unsigned char *)p)[j] = ebyte(b0, j); } }
@@ -680,6 +680,7 @@ struct QueH
         switch (o.code)
         {
         case Q_PUSH_FORE: case Q_PUSH_BACK: case Q_PUSH_SORT: return s + "(key=" + std::to_string(o.a) + ")";
+        case Q_REQUEUE: return "pull_fore, edit the pulled element to key " + std::to_string(o.a) + ", push_sort with the pulled element as key";
         case Q_INSERT: return s + "(idx=" + idx_str(o.a) + ",key=" + std::to_string(o.b) + ")";
         case Q_REMOVE: return s + "(idx=" + idx_str(o.a) + ")";
         case Q_SWAP_ELEM: return s + "(elem " + std::to_string(o.a) + ", elem " + std::to_string(o.b) + ")";
@@ -859,6 +860,29 @@ struct QueH
             m.erase(m.begin() + at);
             break;
         }
+        case Q_REQUEUE:
+        {
+            // re-queueing with a new priority: the element just pulled is edited in place and handed to push_sort as the key (its node is the
+            // one push_sort takes from the pool, so key and new slot are the same memory: the key must survive until it has been compared)
+            if (num == 0) { outcome = "empty"; return; }
+            void *p = a_que_pull_fore(q);
+            if (!p || p != m[0].addr) { ck.fail("removed-element", "pull_fore did not return the first element"); return; }
+            m.erase(m.begin());
+            int key = (int)o.a;
+            unsigned char b0 = fresh_b0(m, key);
+            fill_elem(p, b0, siz);
+            g_key_ptr = p; g_key_side = 2; g_key_side_bad = false;
+            void *r = a_que_push_sort(q, p, cmp_key);
+            g_key_side = 0;
+            if (g_key_side_bad) { ck.fail("comparator-arguments", "push_sort called the comparator without the key on the right"); return; }
+            outcome = "requeued";
+            if (!r) { ck.fail("refused", "push_sort failed although memory is available"); return; }
+            fill_elem(r, b0, siz);
+            size_t i = m.size();
+            while (i > 0 && (m[i - 1].b0 >> 4) > key) { --i; }
+            m.insert(m.begin() + i, QElem{b0, r});
+            break;
+        }
         case Q_SORT_FORE:
         {
             a_que_sort_fore(q, cmp_key);
@@ -984,6 +1008,7 @@ struct QueH
         for (size_t i = 0; i <= num; ++i) { add(Q_REMOVE, (long)i); }
         add(Q_REMOVE, SMAX);
         add(Q_SORT_FORE); add(Q_SORT_BACK);
+        if (num) { for (int k = 0; k < nkeys; ++k) { add(Q_REQUEUE, k); } }
         for (size_t i = 0; i < num; ++i) { for (size_t j = i; j < num; ++j) { add(Q_SWAP_ELEM, (long)i, (long)j); if (j != i) { add(Q_SWAP_ELEM, (long)j, (long)i); } } } // every ordered pair, adjacent elements included (the statement restricts only the list-level swap)
         if (num + cur + 2 <= (size_t)N + 2)
         {
